@@ -152,6 +152,68 @@ theorem overlay_spec {h w : Nat} {g : Grid} (hg : WF h w g) (s : Stage) (hf : Fi
         c < s.left + (s.right + 1 - s.left)) := by omega
     rw [if_neg this, if_neg hcov]
 
+theorem setCell_none {h w : Nat} {g : Grid} (hg : WF h w g) {r c : Nat} (hx : h ≤ r ∨ w ≤ c)
+    (v : Option (List Val)) : Grid.setCell g r c v = none := by
+  obtain ⟨hl, hw⟩ := hg
+  by_cases hr : r < g.length
+  · have hlen : g[r].length = w := hw _ (List.getElem_mem hr)
+    have : ¬ c < w := by omega
+    simp [Grid.setCell, List.getElem?_eq_getElem hr, hlen, this]
+  · simp [Grid.setCell, List.getElem?_eq_none (by omega : g.length ≤ r)]
+
+theorem overlayRow_none {h w : Nat} (r : Nat) (color : List Val) :
+    ∀ (n left : Nat) (g : Grid), WF h w g → 0 < n → (h ≤ r ∨ w < left + n) →
+      Grid.overlayRow g r left n color = none := by
+  intro n
+  induction n with
+  | zero => intro _ _ _ h0; omega
+  | succ n ih =>
+    intro left g hg _ hx
+    simp only [Grid.overlayRow, List.range'_succ, List.foldlM_cons]
+    by_cases hin : r < h ∧ left < w
+    · obtain ⟨g1, h1, hg1, _⟩ := setCell_spec hg hin.1 hin.2 (some color)
+      rw [h1]
+      exact ih (left + 1) g1 hg1 (by omega) (by omega)
+    · rw [setCell_none hg (by omega)]
+      rfl
+
+theorem overlayRows_none {h w : Nat} (left k : Nat) (hk : 0 < k) (color : List Val) :
+    ∀ (n top : Nat) (g : Grid), WF h w g → 0 < n → (h < top + n ∨ w < left + k) →
+      Grid.overlayRows g top n left k color = none := by
+  intro n
+  induction n with
+  | zero => intro _ _ _ h0; omega
+  | succ n ih =>
+    intro top g hg _ hx
+    simp only [Grid.overlayRows, List.range'_succ, List.foldlM_cons]
+    by_cases hin : top < h ∧ left + k ≤ w
+    · obtain ⟨g1, h1, hg1, _⟩ := overlayRow_spec top hin.1 color k left g hg hin.2
+      rw [h1]
+      exact ih (top + 1) g1 hg1 (by omega) (by omega)
+    · rw [overlayRow_none top color k left g hg hk (by omega)]
+      rfl
+
+/-- **the model raises exactly where Python does**: `overlay_color` fails (`IndexError`) iff the
+rectangle is non-empty and reaches outside the matrix — the condition on which the VM model
+faults -/
+theorem overlay_none_iff {h w : Nat} {g : Grid} (hg : WF h w g) (s : Stage) :
+    Grid.overlay g s.top s.bottom s.left s.right s.color = none ↔ ¬ Fits h w s := by
+  constructor
+  · intro hnone hf
+    obtain ⟨g', h1, _⟩ := overlay_spec hg s hf
+    rw [h1] at hnone
+    cases hnone
+  · intro hf
+    unfold Fits at hf
+    exact overlayRows_none s.left (s.right + 1 - s.left) (by omega) s.color (s.bottom + 1 - s.top)
+      s.top g hg (by omega) (by omega)
+
+theorem not_fits_iff (h w : Nat) (t b l r : Nat) (col : List Val) :
+    ¬ Fits h w ⟨t, b, l, r, col⟩ ↔
+      (decide (t ≤ b) && decide (l ≤ r) && (decide (b ≥ h) || decide (r ≥ w))) = true := by
+  simp only [Fits, Bool.and_eq_true, Bool.or_eq_true, decide_eq_true_eq]
+  omega
+
 theorem cell_eq (h w : Nat) (stages : List Stage) (r c : Nat) :
     Matrix.cell ⟨h, w, stages⟩ r c = (stages.reverse.find? fun s => covers s r c).map (·.color) := rfl
 
@@ -326,6 +388,18 @@ theorem doColor_stage (s : State) (m : Matrix) (t b l r : Nat)
     simp only [Bool.and_eq_false_iff, Bool.or_eq_false_iff, decide_eq_false_iff_not]
     simp only at hfit
     omega
+  simp only [State.doColor, hop, hm, hrows, hcols, hcond]
+  rfl
+
+/-- … and a non-empty rectangle reaching outside the matrix faults, exactly where the literal
+`overlay_color` raises (`overlay_none_iff`) -/
+theorem doColor_stage_out_of_range (s : State) (m : Matrix) (t b l r : Nat)
+    (hop : s.regs .operand = .operand .matrix) (hm : s.matrix = some m)
+    (hrows : normAxis (s.regs .firstRow) (s.regs .lastRow) m.height = some (t, b))
+    (hcols : normAxis (s.regs .firstColumn) (s.regs .lastColumn) m.width = some (l, r))
+    (hfit : ¬ Fits m.height m.width ⟨t, b, l, r, s.getColor⟩) :
+    s.doColor = s.fault "matrix index out of range" := by
+  have hcond := (not_fits_iff m.height m.width t b l r s.getColor).mp hfit
   simp only [State.doColor, hop, hm, hrows, hcols, hcond]
   rfl
 
